@@ -183,6 +183,17 @@ add("C15", "CH (+ concrete AST diff)",
     "2 services, 4 RPCs (keyword-named and transport-unsafe included), 6 request fields; existence in the emitted package "
     "is established by AST, not by import.")
 
+add("C17", "CH (+ concrete diff)",
+    "CrossHair (z3) enumeration with solver-proved exhaustion over the real API.build + mixin selection on service YAMLs "
+    "assembled from symbolic selectors; concrete diff of emitted clients/stubs",
+    "Selection clause: for ALL subsets of the three mixin APIs, rule sets, an unrelated rule and an API-defined IAM RPC in "
+    "any service the exposed mixin set equals {RPC of a listed API that has a rule}, the clashing IAM RPC is never a mixin, "
+    "and the REST option rows equal the YAML rules. Emitted clients/stubs expose exactly the selected methods with the "
+    "canonical paths for three configurations (concrete).",
+    "DESIGN.md section 5 C17",
+    "Rule sets per API from menus (4 x 3 x 3); where the API defines a clashing IAM RPC both readings of 'yield' (per RPC / "
+    "all-or-nothing) are accepted for the non-clashing IAM RPCs. Calling the mixin methods is outside the claim.")
+
 PENDING = {}
 
 
